@@ -99,12 +99,44 @@ def run(mid, checks, tier='quick'):
     return 0
 
 
+def table():
+    """Write seeded/RESULTS.md from the results.json files (last result per check)."""
+    rows = []
+    for d in sorted(os.listdir(os.path.join(VERIF, 'seeded'))):
+        mp = os.path.join(VERIF, 'seeded', d, 'meta.json')
+        rp = os.path.join(VERIF, 'seeded', d, 'results.json')
+        if not os.path.exists(rp):
+            continue
+        meta = json.load(open(mp)) if os.path.exists(mp) else {'property': d, 'summary': ''}
+        res = json.load(open(rp))
+        cells = []
+        for r in res:
+            v = [l for l in r['lines'] if l.startswith('VIOLATION')]
+            if r['exit'] == 0:
+                cells.append('%s: not detected' % r['check'])
+            elif v and v[0].endswith('no-failing-input-found'):
+                cells.append('%s: VIOLATION (no-failing-input-found)' % r['check'])
+            elif v:
+                cells.append('%s: VIOLATION with failing input' % r['check'])
+            else:
+                cells.append('%s: exit %d' % (r['check'], r['exit']))
+        rows.append('| `%s` | %s | %s | %s |' % (d, meta.get('property', ''), meta.get('summary', '').replace('|', '/')[:230], '; '.join(cells)))
+    out = ['# Seeded changes and the checks run against them (quick tier)', '',
+           'Generated by `bin/mutant.py table` from `seeded/*/results.json` (last run of each check against each change).', '',
+           '| change | aimed at | what it does | result |', '|---|---|---|---|'] + rows
+    open(os.path.join(VERIF, 'seeded', 'RESULTS.md'), 'w').write('\n'.join(out) + '\n')
+    print('\n'.join(out))
+    return 0
+
+
 if __name__ == '__main__':
     a = sys.argv[1:]
     if a[0] == 'confirm':
         sys.exit(confirm(*a[1:]))
     if a[0] == 'keep':
         sys.exit(keep(*a[1:]))
+    if a[0] == 'table':
+        sys.exit(table())
     if a[0] == 'run':
         tier = 'quick'
         if '--tier' in a:
